@@ -107,6 +107,36 @@ def other_instance_groups(kinds):
     return groups
 
 
+def toggle_groups(rng, kinds, tier):
+    """one question asked under one mode of a configurable calendar and — after the library's configuration switch has
+    been thrown n more times, every n in a window around 2^8 (thorough: and around 2^9, 2^16) — under the other mode:
+    anything that tells "computed under the other mode" by a counter of switches kept in 8 or 16 bits is fooled
+    exactly then. (Every request sets its configuration once more, so the window covers every way of counting.)"""
+    groups = []
+    ns = list(range(248, 260)) + [65536 + k for k in range(-8, 3)]
+    if tier == "thorough":
+        ns += list(range(504, 516)) + list(range(120, 132))
+    for (ca, cb) in (("hij-t", "hij-a"), ("hij-a", "hij-t"), ("jal33", "jal2820"), ("jal2820", "jal33")):
+        g = []
+        for n in ns:
+            for _ in range(4 if tier == "quick" else 12):
+                if ca.startswith("hij"):
+                    y, m = rng.randint(1427, 1442), rng.randint(1, 12)
+                    jd = rng.randrange(2453800, 2459600)
+                else:
+                    y, m = rng.randint(-3000, 3000), rng.randint(1, 12)
+                    jd = rng.randrange(-2000000, 3000000)
+                qs = []
+                if "ym" in kinds:
+                    qs += ["cal tojd %s %d %d %d" % ("%s", y, m, rng.randint(1, 29)), "cal mlen %s %d %d" % ("%s", y, m), "cal leap %s %d" % ("%s", y)]
+                if "jd" in kinds:
+                    qs += ["cal jdto %s %d" % ("%s", jd)]
+                q = rng.choice(qs)
+                g += [q % ca, "cal toggle %s %d" % (cb, n), q % cb]
+        groups.append(g)
+    return groups
+
+
 def after_abuse_groups(rng, kinds, tier):
     """ill-formed dates (month 0 / 13 / 14 / 100+m / 255, day 0 / 31.. / 255) around a day, by-name calls with an
     unknown name, day numbers far outside the domain — then valid questions about the days and months around it"""
@@ -236,6 +266,7 @@ class CalSpec(Spec):
                 sts.append(Stream("cal-years-zones", reqs, weight=_weight, refine=refine))
         sts.append(Stream("cal-other-instance", None, weight=_weight, refine=refine, groups=other_instance_groups(self.kinds)))
         sts.append(Stream("cal-after-ill-formed-calls", None, weight=_weight, groups=after_abuse_groups(rng, self.kinds, tier)))
+        sts.append(Stream("cal-after-many-switches", None, weight=_weight, groups=toggle_groups(rng, self.kinds, tier)))
         return sts
 
     def exhaustive(self, tier):
